@@ -57,7 +57,7 @@ func (e *Env) cur(r int) int {
 }
 
 func (e *Env) committed(at, start int) bool {
-	return e.K >= 0 && e.cur(at) > e.cur(start)+e.K
+	return e.K >= 0 && e.cur(at)-e.cur(start) > e.K
 }
 
 const (
